@@ -109,3 +109,15 @@ Proof.
   - split; [eexists; split; vm_compute; reflexivity|].
     intro o. unfold f3_scen, f3_flags, f3_world; cbn. now split.
 Qed.
+
+(* converse: a scene that is OK and satisfies the selected user requirements is never rejected,
+   whatever the order (given that colliding surfaces belong to intersecting solids) *)
+Theorem C02_scene_ok_accepted : forall lt st durs sc w l users u,
+  consistent sc w -> default_requirements sc = Some l ->
+  (forall a b, w_surf w a b = true -> w_inter w a b = true) ->
+  (forall q, In q users -> length l <= rid q /\ optional q = false) ->
+  SceneOK sc w ->
+  (forall q, In q users -> active q = true -> u (rid q) = false) ->
+  snd (check_with lt st (number 0 l ++ users) (dsample w l u) durs) = Accept.
+Proof. exact scene_ok_accepted. Qed.
+Print Assumptions C02_scene_ok_accepted.
